@@ -35,7 +35,7 @@ const (
 
 func TestMain(m *testing.M) {
 	vlib.Rule("C13: histories of 5-30 steps against two master nodes (real Topology + real SendHeartbeat handler each; a raft stub applies MaxVolumeId commands to both), 2-3 modelled volume servers and 1-4 initial volumes (000/001) that may already hold keys (0,1,2,3,10..12,1000,1001,1e6). " +
-		"Steps: assign (Topology.PickForWrite, count in {0,1,2,5,499,500,501,10000}; none / the first / the last key of the range is then written), full heartbeat of a server (MaxFileKey = largest key it holds; optionally with a concurrent assign placed at the instant the handler calls SetMax or sends its response), stream end, fail-over to the other master, restart of the leader (new sequencer instance: memory = fresh counter, etcd = same store and sequence file, snowflake = same node id 2 ms later), volume growth (Topology.NextVolumeId, then registration as VolumeGrowth.grow does). Sequencer in {memory, etcd over an in-memory KeysAPI with compare-and-swap, snowflake}. " +
+		"Steps: assign (Topology.PickForWrite, count in {0,1,2,5,499,500,501,10000}; none / the first / the last key of the range is then written), full heartbeat of a server (MaxFileKey = largest key it holds; optionally with a concurrent assign placed at the instant the handler calls SetMax or sends its response), stream end, fail-over to the other master, restart of the leader (new sequencer instance: memory = fresh counter, etcd = same store and sequence file, snowflake = same node id 2 ms later), volume growth (Topology.NextVolumeId, then registration as VolumeGrowth.grow does). Sequencer in {memory, etcd over an in-memory KeysAPI with compare-and-swap, snowflake}; with etcd an assign may be raced: the other master (own sequencer instance, same store) does a whole refill between the Get and the Set of the leader's refill and gives its keys to the same volume. " +
 		"Non-trivial = a heartbeat was processed between two assignments, or a leader change happened. Distinct = distinct written-out history.")
 	vlib.Assume("Every sequencer operation is atomic under its mutex, so the interleavings of concurrent clients at call granularity are the sequential histories; the one finer interleaving point that matters (an assign between the statements of the heartbeat handler) is generated explicitly.")
 	vlib.Assume("count 0 is turned into 1 before Topology.PickForWrite, as both callers (gRPC Assign, /dir/assign) do. Replicas of a volume hold the same keys. Only the current leader assigns; after a leader change every volume server reconnects to the new leader before it is used by it.")
@@ -88,6 +88,8 @@ type world struct {
 	dir     string
 	hookErr string
 	closers []func()
+	race    uint64 // etcd: the next assign is raced by a refill of this many keys on the other master
+	raced   int
 
 	assignsSinceHb, okAssigns int
 	hbBetween, leaderChange   bool
@@ -215,7 +217,23 @@ func (w *world) assign(count uint64, rp string, write string) (desc string, viol
 		c = 1
 	}
 	opt := &topology.VolumeGrowOption{ReplicaPlacement: rpOf(rp), Ttl: needle.EMPTY_TTL, DiskType: types.HardDriveType}
+	// Leadership overlap over one etcd: while this master is between the Get and
+	// the Set of a refill, the other master serves a request for the same volume
+	// and does a whole refill of its own.
+	var racer *rng
+	if w.race > 0 && w.kind == "etcd" {
+		rc := w.race
+		other := w.masters[1-w.leader]
+		if other.proc == nil {
+			w.start(1 - w.leader) // its start-up reads the store too: before the hook is armed
+		}
+		w.kv.afterGet = func() { racer = &rng{start: other.proc.seq.inner.NextFileId(rc), count: rc} }
+	}
+	w.race = 0
 	fid, n, _, err := w.lead().topo.PickForWrite(c, opt)
+	w.kv.mu.Lock()
+	w.kv.afterGet = nil
+	w.kv.mu.Unlock()
 	if err != nil {
 		return fmt.Sprintf("assign(count=%d rp=%s) -> no writable volume", count, rp), ""
 	}
@@ -248,6 +266,21 @@ func (w *world) assign(count uint64, rp string, write string) (desc string, viol
 	}
 	v.ranges = append(v.ranges, rng{key, c, step})
 	w.okAssigns++
+	if racer != nil {
+		w.raced++
+		desc += fmt.Sprintf(" || between the Get and the Set of this refill, %s refilled and gave keys [%d,+%d) for the same volume", w.masters[1-w.leader].name, racer.start, racer.count)
+		for _, r := range v.ranges {
+			if racer.start < r.start+r.count && r.start < racer.start+racer.count {
+				return desc, fmt.Sprintf("%s: the two masters' ranges [%d,+%d) and [%d,+%d) (step %d) overlap", desc, racer.start, racer.count, r.start, r.count, r.step)
+			}
+		}
+		for _, k := range v.pre {
+			if k >= racer.start && k < racer.start+racer.count {
+				return desc, fmt.Sprintf("%s contains key %d, which volume %d already held", desc, k, vid)
+			}
+		}
+		v.ranges = append(v.ranges, rng{racer.start, racer.count, step})
+	}
 	if w.assignsSinceHb == -1 { // a heartbeat was processed after an earlier assignment
 		w.hbBetween = true
 	}
@@ -485,6 +518,9 @@ func runHistory(t *rapid.T, kind string) {
 		desc, bad := "", ""
 		switch kindOfStep {
 		case "assign":
+			if kind == "etcd" && rapid.IntRange(0, 2).Draw(t, "racedByOtherMaster") == 0 {
+				w.race = rapid.SampledFrom([]uint64{1, 5, 500, 501, 10000}).Draw(t, "otherMasterCount")
+			}
 			desc, bad = w.assign(rapid.SampledFrom(counts).Draw(t, "count"), rapid.SampledFrom([]string{"000", "000", "001"}).Draw(t, "rp"), rapid.SampledFrom(writes).Draw(t, "write"))
 		case "hb":
 			si := rapid.IntRange(0, nServers-1).Draw(t, "server")
@@ -541,6 +577,9 @@ func runHistory(t *rapid.T, kind string) {
 	}
 	if w.grows > 0 {
 		classes = append(classes, "hist-volume-growth")
+	}
+	if w.raced > 0 {
+		classes = append(classes, "hist-etcd-refill-raced-by-other-master")
 	}
 	switch {
 	case w.okAssigns == 0:
